@@ -706,6 +706,7 @@ def run(chk):
         for b in loops:
             analyse_loop(chk, prog, cfg, b, facts[cfg])
         shared.nothing_after_body(chk, prog, "R8.nothing_after_body", cfg=cfg)
+        shared.start_line_exact(chk, prog, "R2.start_line", cfg=cfg)
         c02.reads(chk, prog, cfg)
         cors_fields(chk, prog, cfg)
         shared.eof_is_error(chk, prog, "R2.eof_is_error", r"^humphrey::http::request::Request::from_stream_inner(::\{closure#0\})?$", "request head", cfg=cfg)
